@@ -221,6 +221,10 @@ pub enum Op {
     /// get_event_by_offset at the offset the base history acknowledged for this id (a reader op of
     /// the concurrent mode): the bytes stored there, whatever has happened to the event since
     GetOff(B32),
+    /// close the store and open it again with the first n of the extra tables (a different
+    /// configuration than before: tables that are not opened keep their rows for the day they are
+    /// opened again, tables opened for the first time are empty)
+    Tables(u8),
     /// outside interference that must not matter: delete (part of) the backup a rebuild left
     /// behind (0 = event.map.bak, 1 = lmdb.bak, 2 = both), or (3) a plain file put in the place of
     /// lmdb.bak, which the next rebuild cannot clear away
@@ -276,6 +280,7 @@ impl Op {
             Op::AddrDeleted(_) => "addr_deleted",
             Op::Holder(_) => "holder",
             Op::GetOff(_) => "get_off",
+            Op::Tables(_) => "tables",
             Op::RemoveBackup(_) => "remove_backup",
             Op::Crash(_) => "crash",
             Op::Fail(_) => "fail",
@@ -579,6 +584,7 @@ impl Op {
             Op::AddrDeleted(a) => format!("addr_deleted kind={} pk={} d={}", a.kind, hex(&a.pk), enc_bytes(&a.d)),
             Op::Holder(a) => format!("holder kind={} pk={} d={}", a.kind, hex(&a.pk), enc_bytes(&a.d)),
             Op::GetOff(id) => format!("get_off id={}", hex(id)),
+            Op::Tables(n) => format!("tables n={n}"),
             Op::RemoveBackup(w) => format!("remove_backup which={w}"),
             Op::Crash(k) => format!("crash k={k}"),
             Op::Fail(k) => format!("fail k={k}"),
@@ -620,6 +626,7 @@ impl Op {
             "addr_deleted" => Op::AddrDeleted(AddrKey { kind: kv.get("kind")?.parse().map_err(e)?, pk: unhex32(kv.get("pk")?)?, d: dec_bytes(kv.get("d")?)? }),
             "holder" => Op::Holder(AddrKey { kind: kv.get("kind")?.parse().map_err(e)?, pk: unhex32(kv.get("pk")?)?, d: dec_bytes(kv.get("d")?)? }),
             "get_off" => Op::GetOff(unhex32(kv.get("id")?)?),
+            "tables" => Op::Tables(kv.get("n")?.parse().map_err(e)?),
             "remove_backup" => Op::RemoveBackup(kv.get("which")?.parse().map_err(e)?),
             "crash" => Op::Crash(kv.get("k")?.parse().map_err(e)?),
             "fail" => Op::Fail(kv.get("k")?.parse().map_err(e)?),
